@@ -53,8 +53,8 @@ Definition sids (ns : list node) : list nat :=
   flat_map (fun n => match n with NLabel s => [s] | NConst s _ => [s] | _ => [] end) ns.
 Definition iids (ns : list node) : list nat := flat_map (fun n => match n with NInstr i _ => [i] | _ => [] end) ns.
 Definition dids (ns : list node) : list nat := flat_map (fun n => match n with NData _ el => map fst el | _ => [] end) ns.
-Definition canonical (ns : list node) : Prop :=
-  NoDup (sids ns) /\ iids ns = seq 0 (length (iids ns)) /\ dids ns = seq 0 (length (dids ns)).
+Definition canonical (nsyms : nat) (ns : list node) : Prop :=
+  NoDup (sids ns) /\ (forall s, In s (sids ns) -> (s < nsyms)%nat) /\ dids ns = seq 0 (length (dids ns)).
 
 (* what the matcher produces: an expression argument sits at a parameter of integer / unspecified type, a nested match at
    a parameter of sub-rule type, one argument per parameter (Proofs/StaticKnownP.v: matcher_kinded) *)
@@ -92,3 +92,8 @@ Definition elem_strict_ok (w : option N) (e : expr) : bool :=
   end.
 Definition data_static_ok (ns : list node) : Prop :=
   forall w elems d e, In (NData w elems) ns -> In (d, e) elems -> data_known e = true -> elem_strict_ok w e = true.
+
+(* every candidate match of every instruction of the program has the shape the matcher produces
+   (Proofs/MatcherKindP.v derives this from parse_defs) *)
+Definition matches_kinded (indexed : bool) (defs : list ruledef) (ns : list node) : Prop :=
+  forall i src m, In (NInstr i src) ns -> In m (match_instr indexed defs src) -> match_kinded defs m = true.
